@@ -8,6 +8,7 @@ from .. import shapes as S
 from .. import util_knots as K
 
 PROPERTY = "C04"
+VIA_HISTORY_EVERY = 9      # every k-th shape case is also run on an object that reached its definition through edits
 EXPLORERS = ['E1']
 RULE = ("E1: clamped curves (p<=3 over K(p,2,4); thorough p<=5 over K(p,3,8)/K(p,3,4)/K(p,2,4)), surfaces (degrees "
         "{1,2,3}^2 over per-direction representatives, pairwise different sizes), volumes (degrees {1,2}^3, thorough "
@@ -100,6 +101,10 @@ def gen_cases(tier, seed):
     for d in K.volume_shapes(tier):
         for dirs in K.nonempty_subsets(3):
             cases.append(dict(kind='e1', shape=d, dirs=dirs))
+    # insertion into a deep copy: the copy's views grow, the original's views stay (rational shapes have view caches)
+    for d in (K.curve_shapes(tier)[:8] + K.surface_shapes(tier)[:8] + K.volume_shapes(tier)[:4]):
+        if d['rational']:
+            cases.append(dict(kind='copy_views', shape=d))
     # sequences: every node of the insertion tree up to the depth bound is one judged step
     for grp in _seed_shapes(tier):
         for k, d in enumerate(grp):
@@ -125,7 +130,7 @@ def case_weight(c):
         return w
     if c['kind'] == 'helper':
         return w * 2
-    return w * (4 if len(c['dirs']) == 1 else 6)
+    return w * (4 if len(c.get('dirs', [0])) == 1 else 6)
 
 
 # ----------------------------------------------------------------------------------------
@@ -481,9 +486,44 @@ def _helper_case(case, ctx):
 
 # ----------------------------------------------------------------------------------------
 
+def _copy_views(case, ctx):
+    import copy
+    desc = case['shape']
+    pd = desc['pdim']
+    ctx.state(dict(d=desc, k='copy_views'), nontrivial=True)
+    for a in range(pd):
+        for target in ('copy', 'original'):
+            obj = S.build(desc, ctx.seed)
+            before = [[list(p) for p in obj.ctrlpts], list(obj.weights)]
+            n0 = len(before[0])
+            other = copy.deepcopy(obj)
+            edited, kept = (other, obj) if target == 'copy' else (obj, other)
+            params, nums = [None] * pd, [0] * pd
+            params[a], nums[a] = 0.3, 1
+            feats = dict(pdim=pd, rational=True, direction=K.DIRN[a], edited=target, degrees=desc['degrees'])
+            rc = dict(case, only=[a, target])
+            if 'only' in case and case['only'] != [a, target]:
+                continue
+            _apply(edited, params, nums, 'operations')
+            # read the untouched object first, then the edited one (and the other way round on the second pass)
+            kept_views = [[list(p) for p in kept.ctrlpts], list(kept.weights)]
+            ed_P, ed_w, ed_Pw = [list(p) for p in edited.ctrlpts], list(edited.weights), [list(p) for p in edited.ctrlptsw]
+            grown = n0 // desc['sizes'][a] * (desc['sizes'][a] + 1)
+            ctx.check('C04.copy.edited_views_grow', len(ed_P) == len(ed_w) == len(ed_Pw) == grown, rc, feats, grown,
+                      [len(ed_P), len(ed_w), len(ed_Pw)])
+            if len(ed_P) == len(ed_w) == len(ed_Pw):
+                ctx.close('C04.copy.edited_views_consistent', ed_Pw, [[c * w for c in p] + [w] for p, w in zip(ed_P, ed_w)],
+                          1e-12, 1.0, rc, feats)
+            ctx.close('C04.copy.other_object_untouched', kept_views, before, 0.0, 1.0, rc, feats)
+            ctx.close('C04.copy.other_object_untouched', [[list(p) for p in kept.ctrlpts], list(kept.weights)], before, 0.0, 1.0,
+                      rc, feats)
+
+
 def run_case(case, ctx):
     kind = case.get('kind', 'seq')
     desc = case['shape']
+    if kind == 'copy_views':
+        return _copy_views(case, ctx)
     if kind == 'e1':
         _e1_case(case, ctx)
     elif kind == 'helper':
